@@ -16,16 +16,31 @@ limitations under the License.
 
 package ahtree
 
-import "crypto/sha256"
+import (
+	"crypto/sha256"
+	"math/bits"
+)
 
 func VerifyInclusion(iproof [][sha256.Size]byte, i, j uint64, iLeaf, jRoot [sha256.Size]byte) bool {
 	if i > j || i == 0 || (i < j && len(iproof) == 0) {
 		return false
 	}
 
+	if len(iproof) != inclusionProofLen(i, j) {
+		return false
+	}
+
 	ciRoot := EvalInclusion(iproof, i, j, iLeaf)
 
 	return jRoot == ciRoot
+}
+
+// inclusionProofLen returns the number of terms in the audit path
+// of the i-th leaf in a tree with j leaves (as in RFC 9162, section 2.1.3)
+func inclusionProofLen(i, j uint64) int {
+	inner := bits.Len64((i - 1) ^ (j - 1))
+	border := bits.OnesCount64((i - 1) >> uint(inner))
+	return inner + border
 }
 
 func EvalInclusion(iproof [][sha256.Size]byte, i, j uint64, iLeaf [sha256.Size]byte) [sha256.Size]byte {
@@ -64,9 +79,42 @@ func VerifyConsistency(cproof [][sha256.Size]byte, i, j uint64, iRoot, jRoot [sh
 		return iRoot == jRoot
 	}
 
+	if i < j && len(cproof) != consistencyProofLen(i, j) {
+		return false
+	}
+
 	ciRoot, cjRoot := EvalConsistency(cproof, i, j)
 
 	return iRoot == ciRoot && jRoot == cjRoot
+}
+
+// consistencyProofLen returns the number of terms in the consistency proof
+// between a tree with i leaves and a tree with j leaves, for i < j
+// (as in RFC 9162, section 2.1.4, with the first term always included)
+func consistencyProofLen(i, j uint64) int {
+	fn := i - 1
+	sn := j - 1
+
+	for fn%2 == 1 {
+		fn >>= 1
+		sn >>= 1
+	}
+
+	n := 1
+
+	for sn > 0 {
+		if fn%2 == 1 || fn == sn {
+			for fn%2 == 0 && fn != 0 {
+				fn >>= 1
+				sn >>= 1
+			}
+		}
+		fn >>= 1
+		sn >>= 1
+		n++
+	}
+
+	return n
 }
 
 func EvalConsistency(cproof [][sha256.Size]byte, i, j uint64) ([sha256.Size]byte, [sha256.Size]byte) {
@@ -110,6 +158,10 @@ func EvalConsistency(cproof [][sha256.Size]byte, i, j uint64) ([sha256.Size]byte
 
 func VerifyLastInclusion(iproof [][sha256.Size]byte, i uint64, leaf, root [sha256.Size]byte) bool {
 	if i == 0 {
+		return false
+	}
+
+	if len(iproof) != bits.OnesCount64(i-1) {
 		return false
 	}
 
